@@ -18,6 +18,12 @@ func main() {
 		os.Exit(cmdExplore(os.Args[2:]))
 	case "check":
 		os.Exit(cmdCheck(os.Args[2:]))
+	case "c06worker":
+		var seed uint64 = 1
+		rounds := 3
+		fmt.Sscan(os.Args[2], &seed)
+		fmt.Sscan(os.Args[3], &rounds)
+		os.Exit(c06Worker(seed, rounds))
 	case "c18worker":
 		n := 130
 		fmt.Sscan(os.Args[2], &n)
